@@ -53,6 +53,22 @@ GEOMS = [(1024, 64), (1024, 96), (1024, 128), (4096, 64), (4096, 128), (4096, 25
          (65536, 1408), (65536, 4096), (65536, 8192), (65536, 64)]
 
 
+def frag_fit(left, mpl, mm):
+    """length of a FRAGMENTED message (> mpl, <= mm) whose frames occupy exactly `left` bytes, or None"""
+    out = []
+    q = left // (mpl + 32)
+    for qq in (q, q - 1):
+        if qq < 1:
+            continue
+        rest = left - qq * (mpl + 32)
+        if rest == 0 and qq >= 2:
+            out.append(qq * mpl)
+        elif 64 <= rest <= mpl + 31 and rest % 32 == 0 and rest - 32 < mpl:
+            out.append(qq * mpl + rest - 32)
+    out = [t for t in out if mpl < t <= mm and required(t, mpl) == left]
+    return out[0] if out else None
+
+
 class Tracker:
     """Python-side estimate of the publication's position, only used to aim limits and lengths at boundaries."""
 
@@ -84,6 +100,9 @@ def pick_len(rng, t, claim=False):
     mpl, mm = t.mpl, t.maxmsg
     left = max(0, t.tlen - min(t.off, t.tlen))
     fill = max(0, left - 32)
+    ff = frag_fit(left, mpl, mm)
+    if ff is not None and not claim and rng.random() < 0.25:
+        return ff + rng.choice([0, 0, -1, 1])
     cands = [0, 1, 31, 32, 33, mpl - 1, mpl, mpl + 1, 2 * mpl, 2 * mpl + 1, mm - 1, mm, mm + 1, fill, fill + 1, fill - 31, left, left - 1,
              rng.randrange(0, mpl + 1), rng.randrange(0, mm + 1), rng.randrange(0, 100), rng.randrange(0, 100)]
     if claim:
